@@ -1104,8 +1104,11 @@ func (c *Ctx) String(t *Term) string {
 	return sb.String()
 }
 
+// MaxPrintDepth bounds String(); raise it for debugging dumps.
+var MaxPrintDepth = 12
+
 func (c *Ctx) write(sb *strings.Builder, t *Term, depth int) {
-	if depth > 12 {
+	if depth > MaxPrintDepth {
 		sb.WriteString("…")
 		return
 	}
